@@ -262,6 +262,50 @@ def per_request_state_is_per_instance(v):
     v.cover('classes-scanned')
 
 
+# --- objects configured once and then shared by every request: their request-time methods write nothing on themselves -----------------------
+#
+# Route converters live in the router's side table, media handlers in the Handlers mapping, static routes / sinks in the app's tables,
+# middleware in the prepared stacks: ONE instance serves all concurrent requests.  A request-time method that stores anything on `self`
+# (a memo of "the last value", a scratch buffer, a counter) lets one request observe another.  Frame condition, decided on the extracted AST
+# of every method of these classes except the configuration-time ones (classes are DISCOVERED in the module, so a new converter / handler is
+# covered without touching this list).
+SHARED_SERVICE_MODULES = {
+    # module: (class filter, configuration-time methods that may write self)
+    'falcon.routing.converters': (lambda cls: any(isinstance(n, (ast.FunctionDef, ast.AsyncFunctionDef)) and n.name == 'convert' for n in cls.body), {'__init__'}),
+    'falcon.media.json': (lambda cls: cls.name.endswith(('Handler', 'HandlerWS')), {'__init__'}),
+    'falcon.media.urlencoded': (lambda cls: cls.name.endswith('Handler'), {'__init__'}),
+    'falcon.media.msgpack': (lambda cls: cls.name.endswith(('Handler', 'HandlerWS')), {'__init__'}),
+    'falcon.media.multipart': (lambda cls: cls.name.endswith('Handler'), {'__init__'}),
+    'falcon.media.base': (lambda cls: cls.name.endswith(('Handler', 'HandlerWS')), {'__init__'}),
+    'falcon.routing.static': (lambda cls: cls.name.startswith('StaticRoute'), {'__init__'}),
+    'falcon.middleware': (lambda cls: cls.name.endswith('Middleware'), {'__init__'}),
+}
+
+
+@harness(PROP, 'falcon.routing.converters:DateTimeConverter.convert', name='shared_service_objects_are_not_written_at_request_time')
+def shared_services_frame(v):
+    if v.concrete:
+        return
+    scanned = 0
+    for mod, (want, config_time) in sorted(SHARED_SERVICE_MODULES.items()):
+        try:
+            tree = v.index.module(mod)[0]
+        except KeyError:
+            v.check('shared-service-module-present:' + mod, False)
+            continue
+        for cls in [n for n in tree.body if isinstance(n, ast.ClassDef) and want(n)]:
+            for fn in [n for n in cls.body if isinstance(n, (ast.FunctionDef, ast.AsyncFunctionDef)) and n.name not in config_time]:
+                try:
+                    v.registry_touch(v.index.find(mod, cls.name + '.' + fn.name))
+                except KeyError:
+                    pass
+                bad = shared_writes(fn, self_names=('self', 'cls'))
+                v.check('request-time-method-writes-nothing-on-the-shared-object:%s.%s.%s' % (mod.replace('falcon.', ''), cls.name, fn.name), not bad, writes=bad)
+                scanned += 1
+    v.check('shared-service-classes-were-found', scanned >= 20, scanned=scanned)
+    v.cover('services-scanned')
+
+
 PURE_CACHED = [
     'falcon.util.misc:http_status_to_code', 'falcon.util.misc:code_to_http_status', 'falcon.util.mediatypes:_parse_media_ranges',
     'falcon.util.mediatypes:_parse_media_type_header' if False else 'falcon.util.mediatypes:_MediaType.parse', 'falcon.util.mediatypes:_MediaRange.parse',
@@ -307,6 +351,10 @@ KILLS = [
     # request state stored on the app object
     ('falcon/app.py', "        req_succeeded = False\n\n        try:\n            if req.method in self._META_METHODS:", "        req_succeeded = False\n        self._last_request = req\n\n        try:\n            if req.method in self._META_METHODS:",
      'no-write-to-app-or-router-state:App.__call__'),
+    # a converter remembers its last conversion in two attributes (a "PERF" memo): one request can be handed another request's value
+    ('falcon/routing/converters.py', "        try:\n            return strptime(value, self._format_string)\n        except ValueError:\n            return None\n",
+     "        try:\n            self._last = strptime(value, self._format_string)\n        except ValueError:\n            return None\n        return self._last\n",
+     'request-time-method-writes-nothing-on-the-shared-object:routing.converters.DateTimeConverter.convert'),
     # params dict hoisted to the router
     (_CP, "        params: Dict[str, Any] = {}\n        node: Optional[CompiledRouterNode] = self._find(", "        self._params: Dict[str, Any] = {}\n        params = self._params\n        node: Optional[CompiledRouterNode] = self._find(",
      'no-write-to-app-or-router-state:CompiledRouter.find'),
@@ -320,4 +368,4 @@ NOT_DECIDED = [
     'the serialisability statement itself: thread interleavings are NOT explored (no thread model); only the sufficient conditions above are proved',
     'ASGI task interleavings inside user code; races with a concurrent add_route (compile=True publishes without the lock)',
 ]
-TRUSTED = ['syntactic frame scan shared_writes() in contracts/C19_concurrency.py (attribute/subscript stores on self/cls, global statements)']
+TRUSTED = ['the list SHARED_SERVICE_MODULES of modules whose classes are shared between requests (classes inside them are discovered, modules are not)', 'syntactic frame scan shared_writes() in contracts/C19_concurrency.py (attribute/subscript stores on self/cls, global statements)']
